@@ -25,16 +25,16 @@ def flush_loop(sfx, v, who, after, style):
         hard = """{exc} := TRUE; goto {after};"""
         disc = """{sent} := 0; closeRet := "{sfx}"; goto handle_close_acq_outbuf_lock;"""
         nosock = """{exc} := TRUE; goto {after};"""
-    elif style == "scio":
-        hard = """crashed := crashed \\cup {{{who}}}; goto {after};"""      # not modelled: the exception leaves received()
-        disc = """{sent} := 0; closeRet := "{sfx}"; goto handle_close_acq_outbuf_lock;"""
-        nosock = """crashed := crashed \\cup {{{who}}}; goto {after};"""    # (the I/O thread does not read from a channel it has closed)
-    elif style == "scw":
-        # the exception leaves service() through both with-blocks; ThreadedTaskDispatcher.handler_thread logs it and
-        # takes the next task
-        hard = """goto send_continue_rel_outbuf_lock_x;"""
-        disc = """{sent} := 0; goto {after};"""                              # service() passes do_close=False
-        nosock = """goto send_continue_rel_outbuf_lock_x;"""
+    elif style in ("scio", "scw"):
+        # send_continue flushes through _flush_exception: an error marks the channel for closing; a disconnect errno
+        # tears the channel down from inside send on the I/O thread (do_close=True) and is left to the I/O thread by a
+        # worker (service() passes do_close=False)
+        hard = """{exc} := TRUE;
+flush_exception_wr_will_close_{sfx}:
+            willClose := TRUE; decided := TRUE;
+            goto {after};"""
+        disc = """{sent} := 0; closeRet := "{sfx}"; goto handle_close_acq_outbuf_lock;""" if style == "scio" else """{sent} := 0; goto {after};"""
+        nosock = """{exc} := TRUE; goto flush_exception_wr_will_close_{sfx};"""
     else:
         hard = """{exc} := TRUE;
 flush_exception_wr_will_close_{sfx}:
@@ -525,7 +525,14 @@ w_after:
     if (aborted /\ running > 0 /\ req.rid \in {started[i] : i \in 1..Len(started)} /\ u <= Len(Writes[req.rid])) { running := running - 1; };
     if (closeOnFinish \/ aborted) { goto service_acq_requests_lock_c; };
 service_rd_will_close:
-    if (~willClose) { goto service_rd_requests_2; };
+    \* `not task.close_on_finish and not self.will_close and len(self.requests) > 1`: the between-requests flush comes
+    \* before the close test, because it may itself fail and set will_close
+    if (willClose) { goto service_rd_will_close_2; };
+service_rd_requests_2:
+    if (Len(requests) > 1) {
+@WATERMARK_S@    };
+service_rd_will_close_2:
+    if (~willClose) { goto w_rotate; };
 service_acq_requests_lock_c:
     await reqLock = "free"; reqLock := self;
 service_wr_close_when_flushed:
@@ -537,9 +544,6 @@ service_wr_requests_c:
 service_rel_requests_lock_c:
     reqLock := "free";
     goto service_rd_connected_4;
-service_rd_requests_2:
-    if (Len(requests) > 1) {
-@WATERMARK_S@    };
 w_rotate:
     \* "forcing the next request to create a new outbuf"
     if (cnt > 0) { cnt := cfg.hwm; };
@@ -554,12 +558,7 @@ service_rd_requests_4:
     };
 service_rd_connected_3:
     if (connected /\ cur # 0 /\ curExpect /\ ~sentContinue) {
-@SC_W@      goto service_rel_requests_lock;
-send_continue_rel_outbuf_lock_x:
-      outCount := outCount - 1; if (outCount = 0) { outOwner := "free"; };
-service_rel_requests_lock_x:
-      reqLock := "free"; goto w_idle;
-    };
+@SC_W@    };
 service_rel_requests_lock:
     reqLock := "free";
 service_rd_connected_4:
